@@ -39,6 +39,10 @@ SPEC = {"amp": {1: True, 2: True, 3: True},
         "theta": {1: False, 2: False, 3: True}}
 
 MUTANTS = [
+    ("pre-fit box clipped with the row extent", "AegeanTools/source_finder.py",
+     "                ymx = int(round(np.clip(cy + 2, 0, idata.shape[1])))",
+     "                ymx = int(round(np.clip(cy + 2, 0, idata.shape[0])))",
+     "C05-R6"),
     ("island without usable source ends the group", "AegeanTools/source_finder.py",
      "                    \"No sources found in island {0}\".format(src.island))\n"
      "                continue",
